@@ -7,12 +7,14 @@
 // (window / listed events / transitions judged at every ReachedEventTrigger) and by the library's
 // TimeStepper (handler log judged); both are compared with an analytic reference simulation.
 #include "SimTKmath.h"
+#include "IntegratorRep.h"      // white box: start time of the internal step in which an event was localised (Tracker::excused)
 #include "odesys.h"
 #include "verif.h"
 
 #include <cstdarg>
 #include <fcntl.h>
 #include <memory>
+#include <set>
 #include <signal.h>
 
 using namespace SimTK;
@@ -172,6 +174,23 @@ struct Fixture {
         init = sys->makeState(0, Vector(1, Real(0)), Vector(1, Real(1)), Vector(1, Real(0)));
     }
 };
+static Integrator* makeIntegratorOf(int integ, bool fixedStep, double h, const System& sys) {
+    Integrator* I = nullptr;
+    switch (integ) {
+        case 0: I = new ExplicitEulerIntegrator(sys); break;
+        case 1: I = new RungeKutta2Integrator(sys); break;
+        case 2: I = new RungeKutta3Integrator(sys); break;
+        case 3: I = new RungeKuttaFeldbergIntegrator(sys); break;
+        case 4: I = new RungeKuttaMersonIntegrator(sys); break;
+        case 5: I = new VerletIntegrator(sys); break;
+        case 6: I = new SemiExplicitEulerIntegrator(sys, fixedStep ? h : h / 4); break;
+        case 7: I = new SemiExplicitEuler2Integrator(sys); break;
+        case 8: I = new CPodesIntegrator(sys, CPodes::BDF); break;
+        default: I = new CPodesIntegrator(sys, CPodes::Adams); break;
+    }
+    if (fixedStep && integ != 6) I->setFixedStepSize(h);
+    return I;
+}
 static Integrator* makeIntegrator(const Cfg& c, const System& sys) {
     const double h = c.V().hfix;
     Integrator* I = nullptr;
@@ -278,26 +297,43 @@ static Reference simulateReference(const Cfg& c, const std::vector<Wit>& wits, d
 
 // ---------------------------------------------------------------- judging helpers
 struct Judge {
-    verif::Run& run; const Cfg& cfg; std::string trace; bool tracing;
+    verif::Run& run; std::string cfgStr, cfgDesc, integName, replayKey; std::string trace; bool tracing;
     bool sawFailure = false;      // (untraced pass) some clause failed: the case is executed again with tracing
     bool reported = false;        // (traced pass) the first failing clause has been reported; later ones in the same
                                   // simulation are consequences more often than not and are only counted
-    Judge(verif::Run& run, const Cfg& c, bool tracing) : run(run), cfg(c), tracing(tracing) {}
-    std::string where() const { return cfg.str() + "\n  " + cfg.describe() + "\n" + trace; }
-    std::string replay() const { return "cfg=" + cfg.str() + "\n" + trace; }
-    template <class M> void check(bool cond, const char* clause, const M& msg) {
+    bool reportedB = false;       // the same for the second clause group (sections win/stage/repwin/reuse: "the trajectory
+                                  // continues from the state the handlers produced"), which is judged against a reference that
+                                  // follows the implementation's own handler invocations and therefore does not inherit
+                                  // protocol failures (a known CPodes root-finding key cannot hide a lost handler change)
+    Judge(verif::Run& run, const Cfg& c, bool tracing) : run(run), cfgStr(c.str()), cfgDesc(c.describe()), integName(INTEG_NAMES[c.integ]), replayKey("cfg"), tracing(tracing) {}
+    Judge(verif::Run& run, const std::string& cfgStr, const std::string& cfgDesc, const std::string& integName, const std::string& replayKey, bool tracing)
+        : run(run), cfgStr(cfgStr), cfgDesc(cfgDesc), integName(integName), replayKey(replayKey), tracing(tracing) {}
+    std::string where() const { return cfgStr + "\n  " + cfgDesc + "\n" + trace; }
+    std::string replay() const { return replayKey + "=" + cfgStr + "\n" + trace; }
+    template <class M> void checkG(bool& rep, bool cond, const char* clause, const M& msg) {
         if (cond) { if (!tracing || run.verbose) { run.acc.transitions++; okCount()[clause]++; } return; }
         if (!tracing) { sawFailure = true; return; }
-        if (reported) { run.count("failures_after_the_first_in_one_simulation"); return; }
-        reported = true;
-        run.expect(false, std::string(INTEG_NAMES[cfg.integ]) + "/" + clause, [&] { return std::string(clause) + ": " + msg() + "\n  at " + where(); }, [&] { return replay(); });
+        if (rep) { run.count("failures_after_the_first_in_one_simulation"); return; }
+        rep = true;
+        run.expect(false, integName + "/" + clause, [&] { return std::string(clause) + ": " + msg() + "\n  at " + where(); }, [&] { return replay(); });
     }
+    template <class M> void check(bool cond, const char* clause, const M& msg) { checkG(reported, cond, clause, msg); }
+    template <class M> void checkB(bool cond, const char* clause, const M& msg) { checkG(reportedB, cond, clause, msg); }
     void residual(const char* oracle, double value, double bound, const char* clause) {
         if (!(value <= bound) && !tracing) { sawFailure = true; return; }
         if (!(value <= bound) && reported) { run.count("failures_after_the_first_in_one_simulation"); return; }
         if (!(value <= bound)) reported = true;
         if ((value <= bound) != tracing || run.verbose)
-            run.residual(oracle, value, bound, [&] { return where(); }, [&] { return replay(); }, std::string(INTEG_NAMES[cfg.integ]) + "/" + clause);
+            run.residual(oracle, value, bound, [&] { return where(); }, [&] { return replay(); }, integName + "/" + clause);
+    }
+    // a residual whose failure is reported under the boolean key <integrator>/<clause> (group A or B); passing values
+    // are recorded under `oracle` for calibration
+    template <class M> void residualKeyed(bool groupB, const char* oracle, double value, double bound, const char* clause, const M& msg) {
+        if (value <= bound) {
+            if (!tracing || run.verbose) { run.residual(oracle, value, bound, [&] { return where(); }); okCount()[clause]++; }
+            return;
+        }
+        checkG(groupB ? reportedB : reported, false, clause, msg);
     }
     void note(const char* fmt, ...) {
         if (!tracing) return;
@@ -305,6 +341,8 @@ struct Judge {
     }
     static std::map<const char*, int64_t>& okCount() { static std::map<const char*, int64_t> m; return m; }
     static void flush(verif::Run& run) { for (auto& kv : okCount()) run.count(std::string("oracle:") + kv.first + ":ok", kv.second); okCount().clear(); }
+    // stable storage for clause names composed at run time (okCount is keyed by pointer)
+    static const char* intern(const std::string& s) { static std::set<std::string> pool; return pool.insert(s).first->c_str(); }
 };
 
 // tolerances (see notes/C22.md): the localisation window the documentation promises is accuracy*timescale*window
@@ -537,6 +575,686 @@ static void simulate(verif::Run& run, const Cfg& cfg, Judge& J, uint64_t& outcom
     (void)nEventReturns; (void)v;
 }
 
+// ================================================================ second generation: sections win / stage / repwin / reuse
+// Same system family (qdot=u, udot=0, zdot=d0+d1), but every witness carries its own required localisation window
+// (EventTriggerInfo::setRequiredLocalizationTimeWindow) and a shape (linear, convex, concave in q: the secant estimate
+// of the root is exact, undershoots, overshoots); scheduled handlers/reporters come as a list; handler actions include
+// changes whose lowest modified stage is Dynamics or Acceleration (z only, Dynamics-stage variable, Acceleration-stage
+// variable).  The reference is a *tracking* reference: it follows the implementation's own merged trace (handler and
+// reporter invocations, returned trajectory points, in the order they happened), demands of each invocation that it is
+// at the right time (crossing <= t <= crossing + the event's OWN window; scheduled: exact), that the state it saw lies on
+// the current analytic segment, and restarts the analytic segment from the handler's own time.  So all state
+// comparisons are exact to roundoff (no drift allowance), and a lost handler change cannot hide behind a protocol failure.
+namespace g2 {
+
+enum Shape { ShLinear, ShConvex, ShConcave };
+enum Act2 { A2None, A2SetU, A2SetZ, A2SetD, A2SetDAcc, NACT2 };
+static const char* ACT2_NAMES[] = {"none", "u-change", "z-only", "dynamics-var", "acceleration-var"};
+static const char* SHAPE_NAMES[] = {"linear", "convex", "concave"};
+static const double SHAPE_L = 2.0;       // distance of the second root of a convex/concave witness: out of reach (0 <= q < 2)
+static const double Z_JUMP = 0.7;
+static const double ACCURACY = 1e-3, TIMESCALE = 0.1;     // setAccuracy(1e-3); System default time scale
+
+struct Wit2 { int shape, orient; double root, win; int mask, action; };        // orient +1: rising as q increases; mask bit0 rising, bit1 falling
+struct SchedItem { char kind; bool periodic; double when; int action; };       // kind 'S' handler, 'R' reporter; when = time or interval
+struct Scn {
+    std::string sec;
+    int vs = 0, integ = 0, fixedStep = 0, driver = 0;    // driver 0 raw stepTo loop, 1 TimeStepper (reports = stepTo targets), 2 TimeStepper (reports = a ScheduledEventReporter)
+    double hfix = .3, uNew = 2, t0 = 0, q0 = 0, u0 = 1, z0 = 0, tFinal = TFINAL;
+    std::vector<Wit2> wits; std::vector<SchedItem> sched; std::vector<double> reports;     // reports ascending, < tFinal
+    double tolOf(int i) const { return ACCURACY * TIMESCALE * wits[i].win; }
+    std::string describe() const {
+        std::string s = "section " + sec + ", witnesses:";
+        char b[200];
+        for (auto& w : wits) {
+            snprintf(b, sizeof b, " [%s %s root q=%.12g window %g (tolerance %.3g) mask %s action %s]", SHAPE_NAMES[w.shape], w.orient > 0 ? "rising" : "falling", w.root, w.win,
+                     ACCURACY * TIMESCALE * w.win, w.mask == 1 ? "rising" : w.mask == 2 ? "falling" : "both", ACT2_NAMES[w.action]);
+            s += b;
+        }
+        s += "; scheduled:";
+        for (auto& k : sched) { snprintf(b, sizeof b, " [%s %s %.12g action %s]", k.kind == 'S' ? "handler" : "reporter", k.periodic ? "every" : "once at", k.when, ACT2_NAMES[k.action]); s += b; }
+        s += "; reports at:";
+        for (double r : reports) { snprintf(b, sizeof b, " %.12g", r); s += b; }
+        snprintf(b, sizeof b, "; start t=%.12g q=%.6g u=%.6g z=%.6g, final time %.12g, %s step, %s", t0, q0, u0, z0, tFinal, fixedStep ? "fixed" : "controlled",
+                 driver == 0 ? "raw stepTo loop" : driver == 1 ? "TimeStepper" : "TimeStepper with a scheduled reporter at the report times");
+        return s + b;
+    }
+};
+static double wit2Value(const Wit2& w, double q) {
+    const double x = q - w.root;
+    const double f = w.shape == ShLinear ? x : w.shape == ShConvex ? x * (x + SHAPE_L) / SHAPE_L : x * (SHAPE_L - x) / SHAPE_L;
+    return w.orient * f;
+}
+
+// the merged trace: handler / reporter invocations and returned trajectory points in the order they happened
+struct Entry {
+    char kind; int idx; double t, q, u, z; int status;      // 'T' triggered handler, 'S' scheduled handler, 'R' reporter, 'P' returned point
+    // 'T' only (read from the integrator while the handler runs; NaN for CPodes): the event window and the start of the internal
+    // step in which it was localised -- used only to recognise the one case the documentation leaves open (see Tracker::excused)
+    double wLow = NaN, wHigh = NaN, tPrev = NaN;
+};
+struct Shared2 {
+    std::vector<Entry> trace; std::vector<char> acted; int probe = -1; std::vector<int> probed; bool terminateOnTrigger = false;
+    const Integrator* integ = nullptr; bool integIsCPodes = false;
+    void reset(size_t n) { trace.clear(); acted.assign(n, 0); probe = -1; probed.clear(); }
+};
+static std::string traceStr(const std::vector<Entry>& L) {
+    std::string s;
+    for (auto& e : L) { char b[100]; if (e.kind == 'P') snprintf(b, sizeof b, "P@%.12g ", e.t); else snprintf(b, sizeof b, "%c%d@%.12g ", e.kind, e.idx, e.t); s += b; }
+    return s.empty() ? "(empty)" : s;
+}
+static void applyAct2(const odesys::OdeSystem& sys, const Scn& sc, int action, State& s) {
+    switch (action) {
+        case A2SetU: sys.setU(s, 0, sc.uNew); break;
+        case A2SetZ: s.updZ(sys.subsys())[0] += Z_JUMP; break;
+        case A2SetD: sys.setD(s, 0, 1.0); break;
+        case A2SetDAcc: sys.setD(s, 1, 1.0); break;
+        default: break;
+    }
+}
+static Entry entryOf(const odesys::OdeSystem& sys, char kind, int idx, const State& s, int status = 0) {
+    Entry e; e.kind = kind; e.idx = idx; e.t = s.getTime(); e.q = sys.q(s, 0); e.u = sys.u(s, 0); e.z = sys.z(s, 0); e.status = status;
+    return e;
+}
+class TrigHandler2 : public TriggeredEventHandler {
+public:
+    TrigHandler2(const odesys::OdeSystem& sys, Shared2& sh, const Scn& sc, int idx) : TriggeredEventHandler(Stage::Position), sys(sys), sh(sh), sc(sc), idx(idx), w(sc.wits[idx]) {
+        getTriggerInfo().setTriggerOnRisingSignTransition((w.mask & 1) != 0);
+        getTriggerInfo().setTriggerOnFallingSignTransition((w.mask & 2) != 0);
+        getTriggerInfo().setRequiredLocalizationTimeWindow(w.win);
+    }
+    Real getValue(const State& s) const override { return wit2Value(w, sys.q(s, 0)); }
+    void handleEvent(State& s, Real, bool& terminate) const override {
+        if (sh.probe >= 0) { sh.probed.push_back(idx); return; }
+        Entry e = entryOf(sys, 'T', idx, s);
+        if (sh.integ && !sh.integIsCPodes) { const Vec2 w = sh.integ->getEventWindow(); e.wLow = w[0]; e.wHigh = w[1]; e.tPrev = sh.integ->getRep().getPreviousTime(); }
+        sh.trace.push_back(e);
+        if (sh.terminateOnTrigger) { terminate = true; return; }
+        if (!sh.acted[idx]) { sh.acted[idx] = 1; applyAct2(sys, sc, w.action, s); }
+    }
+    const odesys::OdeSystem& sys; Shared2& sh; const Scn& sc; int idx; Wit2 w;
+};
+class OnceHandler2 : public ScheduledEventHandler {
+public:
+    OnceHandler2(const odesys::OdeSystem& sys, Shared2& sh, const Scn& sc, int k) : sys(sys), sh(sh), sc(sc), k(k) {}
+    Real getNextEventTime(const State& s, bool includeCurrent) const override {
+        const double when = sc.sched[k].when;
+        return (s.getTime() < when || (includeCurrent && s.getTime() == when)) ? when : (Real)Infinity;
+    }
+    void handleEvent(State& s, Real, bool&) const override {
+        if (sh.probe >= 0) return;
+        sh.trace.push_back(entryOf(sys, 'S', k, s));
+        const size_t a = sc.wits.size() + k;
+        if (!sh.acted[a]) { sh.acted[a] = 1; applyAct2(sys, sc, sc.sched[k].action, s); }
+    }
+    const odesys::OdeSystem& sys; Shared2& sh; const Scn& sc; int k;
+};
+class PerHandler2 : public PeriodicEventHandler {
+public:
+    PerHandler2(const odesys::OdeSystem& sys, Shared2& sh, const Scn& sc, int k) : PeriodicEventHandler(sc.sched[k].when), sys(sys), sh(sh), sc(sc), k(k) {}
+    void handleEvent(State& s, Real, bool&) const override {
+        if (sh.probe >= 0) return;
+        sh.trace.push_back(entryOf(sys, 'S', k, s));
+        const size_t a = sc.wits.size() + k;
+        if (!sh.acted[a]) { sh.acted[a] = 1; applyAct2(sys, sc, sc.sched[k].action, s); }
+    }
+    const odesys::OdeSystem& sys; Shared2& sh; const Scn& sc; int k;
+};
+class OnceReporter2 : public ScheduledEventReporter {
+public:
+    OnceReporter2(const odesys::OdeSystem& sys, Shared2& sh, const Scn& sc, int k) : sys(sys), sh(sh), sc(sc), k(k) {}
+    Real getNextEventTime(const State& s, bool includeCurrent) const override {
+        const double when = sc.sched[k].when;
+        return (s.getTime() < when || (includeCurrent && s.getTime() == when)) ? when : (Real)Infinity;
+    }
+    void handleEvent(const State& s) const override { sh.trace.push_back(entryOf(sys, 'R', k, s)); }
+    const odesys::OdeSystem& sys; Shared2& sh; const Scn& sc; int k;
+};
+class PerReporter2 : public PeriodicEventReporter {
+public:
+    PerReporter2(const odesys::OdeSystem& sys, Shared2& sh, const Scn& sc, int k) : PeriodicEventReporter(sc.sched[k].when), sys(sys), sh(sh), k(k) {}
+    void handleEvent(const State& s) const override { sh.trace.push_back(entryOf(sys, 'R', k, s)); }
+    const odesys::OdeSystem& sys; Shared2& sh; int k;
+};
+// driver 2: the report times as one scheduled reporter (index -1 in the trace: judged like a returned point)
+class ListReporter2 : public ScheduledEventReporter {
+public:
+    ListReporter2(const odesys::OdeSystem& sys, Shared2& sh, const std::vector<double>& times) : sys(sys), sh(sh), times(times) {}
+    Real getNextEventTime(const State& s, bool includeCurrent) const override {
+        for (double r : times) if (s.getTime() < r || (includeCurrent && s.getTime() == r)) return r;
+        return Infinity;
+    }
+    void handleEvent(const State& s) const override { sh.trace.push_back(entryOf(sys, 'P', -1, s, (int)Integrator::ReachedReportTime)); }
+    const odesys::OdeSystem& sys; Shared2& sh; std::vector<double> times;
+};
+
+struct Fixture2 {
+    Shared2 sh; std::unique_ptr<odesys::OdeSystem> sys; State init; const Scn& sc;
+    Fixture2(const Scn& sc) : sc(sc) {
+        sys.reset(new odesys::OdeSystem(1, 1, [](Real, const Vector&, const Vector&, const Vector&, const Vector& d, Vector& udot, Vector& zdot) { udot[0] = 0; zdot[0] = d[0] + d[1]; }, 2));
+        sys->setDiscreteVariableStage(1, Stage::Acceleration);
+        for (int k = 0; k < (int)sc.sched.size(); ++k) {
+            const SchedItem& it = sc.sched[k];
+            if (it.kind == 'S') { if (it.periodic) sys->addEventHandler(new PerHandler2(*sys, sh, sc, k)); else sys->addEventHandler(new OnceHandler2(*sys, sh, sc, k)); }
+            else { if (it.periodic) sys->addEventReporter(new PerReporter2(*sys, sh, sc, k)); else sys->addEventReporter(new OnceReporter2(*sys, sh, sc, k)); }
+        }
+        if (sc.driver == 2) sys->addEventReporter(new ListReporter2(*sys, sh, sc.reports));
+        for (int i = 0; i < (int)sc.wits.size(); ++i) sys->addEventHandler(new TrigHandler2(*sys, sh, sc, i));
+        init = sys->makeState(sc.t0, Vector(1, Real(sc.q0)), Vector(1, Real(sc.u0)), Vector(1, Real(sc.z0)));
+        sh.reset(sc.wits.size() + sc.sched.size());
+    }
+    Integrator* makeIntegrator() const {
+        Integrator* I = makeIntegratorOf(sc.integ, sc.fixedStep != 0, sc.hfix, *sys);
+        I->setAccuracy(ACCURACY);
+        if (sc.tFinal < Infinity) I->setFinalTime(sc.tFinal);
+        return I;
+    }
+};
+
+// ---------------------------------------------------------------- the tracking reference
+static const double TOLX_ABSTRACT = 1e-10;      // state vs analytic segment (linear trajectory: roundoff only), see notes for the measured worst
+static const double TOLX_CPODES = 1e-9;
+struct Seg { double t0, q0, u, z0, zd; };
+static double segQ(const Seg& s, double t) { return s.q0 + s.u * (t - s.t0); }
+static double segZ(const Seg& s, double t) { return s.z0 + s.zd * (t - s.t0); }
+struct Tracker {
+    const Scn& sc; Judge& J; double tEnd;
+    Seg seg, before; bool haveBefore = false; int lastAct = A2None; double d0 = 0, d1 = 0;
+    std::vector<double> tc; std::vector<char> handled, actedW, actedS;
+    std::vector<std::vector<double>> expect; std::vector<size_t> nextE;
+    double tMax = -Infinity; char tMaxKind = 0;
+    std::vector<double> allReports, listExpect; size_t nextL = 0;      // every report time the integrator is ever given; driver 2: the list reporter's times
+    double lastW0 = NaN, lastW1 = NaN, lastKnownR = NaN;               // window of the last handled triggered event and the report time known when it was localised
+    const double tolx; const char* oracleName;
+    Tracker(const Scn& sc, Judge& J, double tEnd) : sc(sc), J(J), tEnd(tEnd), tolx(sc.integ >= 8 ? TOLX_CPODES : TOLX_ABSTRACT), oracleName(sc.integ >= 8 ? "track-state-cpodes" : "track-state-abstract") {
+        seg = {sc.t0, sc.q0, sc.u0, sc.z0, 0}; before = seg;
+        const int nW = (int)sc.wits.size();
+        tc.assign(nW, Infinity); handled.assign(nW, 0); actedW.assign(nW, 0); actedS.assign(sc.sched.size(), 0);
+        for (int i = 0; i < nW; ++i) if (sc.wits[i].root > sc.q0) tc[i] = sc.t0 + (sc.wits[i].root - sc.q0) / sc.u0;
+        expect.resize(sc.sched.size()); nextE.assign(sc.sched.size(), 0);
+        for (size_t k = 0; k < sc.sched.size(); ++k) {
+            const SchedItem& it = sc.sched[k];
+            if (!it.periodic) { if (it.when >= sc.t0 && it.when <= tEnd + EPS_T) expect[k].push_back(it.when); continue; }
+            long long count = (long long)std::floor(sc.t0 / it.when);         // the arithmetic PeriodicEventHandler documents: multiples of the interval
+            while (count * it.when < sc.t0) count++;
+            for (; count * it.when <= tEnd + EPS_T; ++count) expect[k].push_back(count * it.when);
+        }
+        allReports = sc.reports; allReports.push_back(tEnd);
+        for (size_t k = 0; k < sc.sched.size(); ++k) if (sc.sched[k].kind == 'R') allReports.insert(allReports.end(), expect[k].begin(), expect[k].end());
+        std::sort(allReports.begin(), allReports.end());
+        if (sc.driver == 2) listExpect = sc.reports;
+    }
+    // Integrator.h promises that no report time lies strictly inside an event window.  The integrator can honour that only for
+    // the report time it was given in the stepTo call that took the step (the earliest report time after the start of that
+    // step); a report time it is told about later, after the window exists, may lie inside it.  What happens to such a report
+    // (returned after the event was handled, or skipped when the handler changed the state) is not documented: counted, not judged.
+    bool excused(double r) const { return lastW0 < r && r < lastW1 && r != lastKnownR; }
+    std::vector<double> excusedTimes;      // scheduled report times passed over as excused: a late delivery of one of them is accepted
+    bool wasExcused(double t) const { return std::find(excusedTimes.begin(), excusedTimes.end(), t) != excusedTimes.end(); }
+    void noteExcused() { Judge::okCount()["(unspecified) a report time first requested after the event window was localised lies strictly inside it: order / delivery not judged"]++; }
+    bool monitored(int i) const { return (sc.wits[i].mask & (sc.wits[i].orient > 0 ? 1 : 2)) != 0; }
+    void missesBefore(double t, char kind, int idx) {
+        for (int i = 0; i < (int)tc.size(); ++i) {
+            if (handled[i] || !monitored(i) || (kind == 'T' && idx == i)) continue;
+            if (tc[i] + sc.tolOf(i) * (1 + 1e-9) + EPS_T < t) {
+                handled[i] = 2;
+                J.check(false, "crossing-not-handled", [&] { return "witness " + std::to_string(i) + " crossed at " + verif::fmtd(tc[i]) + " (own window " + verif::fmtd(sc.tolOf(i)) + ") but its handler had not been invoked when the trace reached t=" + verif::fmtd(t); });
+            }
+        }
+        for (size_t k = 0; k < expect.size(); ++k) {
+            // an item due within roundoff of the end of the run is optional (the run may end before or after handling it)
+            while (nextE[k] < expect[k].size() && expect[k][nextE[k]] < t && expect[k][nextE[k]] < tEnd - EPS_T) {
+                const double s = expect[k][nextE[k]++];
+                if (sc.sched[k].kind == 'R' && excused(s)) { noteExcused(); excusedTimes.push_back(s); continue; }
+                const bool atStart = s == sc.t0;
+                J.check(false, sc.sched[k].kind == 'S' ? (atStart ? "scheduled-handler-due-at-initial-time-not-invoked" : "scheduled-handler-not-invoked") : (atStart ? "scheduled-report-due-at-initial-time-not-made" : "scheduled-report-not-made"),
+                        [&] { return "scheduled item " + std::to_string(k) + " due at " + verif::fmtd(s) + " had not run when the trace reached t=" + verif::fmtd(t); });
+            }
+        }
+    }
+    void listMissesBefore(double t) {
+        while (nextL < listExpect.size() && listExpect[nextL] < t && listExpect[nextL] < tEnd - EPS_T) {
+            const double s = listExpect[nextL++];
+            if (excused(s)) { noteExcused(); excusedTimes.push_back(s); continue; }
+            J.check(false, "scheduled-report-not-made", [&] { return "the report scheduled at " + verif::fmtd(s) + " had not been made when the trace reached t=" + verif::fmtd(t); });
+        }
+    }
+    void stateOnSegment(const Entry& e, bool isReturnedPoint) {
+        const double err = std::max(std::abs(e.q - segQ(seg, e.t)), std::max(std::abs(e.u - seg.u), std::abs(e.z - segZ(seg, e.t))));
+        if (!isReturnedPoint) {
+            J.residualKeyed(false, oracleName, err, tolx, "handler-saw-wrong-state", [&] { return std::string(1, e.kind) + std::to_string(e.idx) + " at t=" + verif::fmtd(e.t) + " saw q=" + verif::fmtd(e.q) + " u=" + verif::fmtd(e.u) + " z=" + verif::fmtd(e.z) +
+                                                                                                 ", the trajectory has q=" + verif::fmtd(segQ(seg, e.t)) + " u=" + verif::fmtd(seg.u) + " z=" + verif::fmtd(segZ(seg, e.t)); });
+            return;
+        }
+        // group B: "later integration starts from the state the handlers produced"
+        const char* clause = "returned-state-off-trajectory";
+        if (!(err <= tolx) && haveBefore) {
+            const double errOld = std::max(std::abs(e.q - segQ(before, e.t)), std::max(std::abs(e.u - before.u), std::abs(e.z - segZ(before, e.t))));
+            clause = Judge::intern(std::string(errOld <= 1e3 * tolx ? "handler-change-lost/" : "trajectory-after-handler-wrong/") + ACT2_NAMES[lastAct]);
+        }
+        J.residualKeyed(true, oracleName, err, tolx, clause, [&] { return "returned state at t=" + verif::fmtd(e.t) + " is q=" + verif::fmtd(e.q) + " u=" + verif::fmtd(e.u) + " z=" + verif::fmtd(e.z) + ", the trajectory continued from the handlers' state has q=" +
+                                                                          verif::fmtd(segQ(seg, e.t)) + " u=" + verif::fmtd(seg.u) + " z=" + verif::fmtd(segZ(seg, e.t)) + " (last action: " + ACT2_NAMES[lastAct] + " at t=" + verif::fmtd(seg.t0) + ")"; });
+    }
+    void act(int action, double t) {
+        if (action == A2None) return;
+        before = seg; haveBefore = true; lastAct = action;
+        Seg n = {t, segQ(seg, t), seg.u, segZ(seg, t), seg.zd};
+        if (action == A2SetU) n.u = sc.uNew;
+        if (action == A2SetZ) n.z0 += Z_JUMP;
+        if (action == A2SetD) d0 = 1;
+        if (action == A2SetDAcc) d1 = 1;
+        n.zd = d0 + d1;
+        seg = n;
+        for (int i = 0; i < (int)tc.size(); ++i) if (!handled[i] && tc[i] > t && sc.wits[i].root > n.q0) tc[i] = t + (sc.wits[i].root - n.q0) / n.u;
+    }
+    void feed(const Entry& e) {
+        // time order of everything the caller sees
+        if (e.kind == 'T') {      // the window this event was localised in (before anything is judged against it)
+            lastW0 = e.wLow; lastW1 = e.wHigh; lastKnownR = NaN;
+            for (double r : allReports) if (r > e.tPrev) { lastKnownR = r; break; }
+        }
+        if (e.t < tMax && tMaxKind == 'T' && (e.kind == 'P' || e.kind == 'R') && excused(e.t)) noteExcused();
+        else if (e.t < tMax) {
+            const char* clause = e.kind == 'P' ? (tMaxKind == 'P' ? "returned-time-decreased" : "report-returned-after-later-event-was-handled")
+                                               : (e.kind == 'R' ? "scheduled-report-made-after-later-event-was-handled" : "handlers-invoked-out-of-time-order");
+            J.check(false, clause, [&] { return std::string(1, e.kind) + " entry at t=" + verif::fmtd(e.t) + " follows a '" + std::string(1, tMaxKind) + "' entry at the later time " + verif::fmtd(tMax); });
+        } else J.check(true, "trace-in-time-order", [] { return std::string(); });
+        if (e.t >= tMax) { tMax = e.t; tMaxKind = e.kind; }
+        missesBefore(e.t, e.kind, e.idx);
+        const bool stale = e.t < seg.t0;          // out of time order (reported above): no segment to compare with
+        if (e.kind == 'P' && e.idx == -1) {       // driver 2: the list reporter
+            if (nextL < listExpect.size() && listExpect[nextL] < e.t) listMissesBefore(e.t);
+            if (nextL < listExpect.size() && listExpect[nextL] == e.t) { nextL++; J.check(true, "scheduled-item-at-its-time", [] { return std::string(); }); }
+            else if (!wasExcused(e.t)) J.check(false, "scheduled-report-not-at-its-time", [&] { return "the list reporter ran at " + verif::fmtd(e.t); });
+        } else listMissesBefore(e.t);
+        if (e.kind == 'P') { if (!stale) stateOnSegment(e, true); return; }
+        if (e.kind == 'T') {
+            const int i = e.idx;
+            if (handled[i] == 1) {
+                J.check(false, "crossing-handled-twice", [&] { return "handler " + std::to_string(i) + " invoked again at " + verif::fmtd(e.t); });
+            } else if (!monitored(i) || !(tc[i] < Infinity)) {
+                J.check(false, "unexpected-triggered-handler-invocation", [&] { return "handler " + std::to_string(i) + " invoked at " + verif::fmtd(e.t) + " without a crossing in a monitored direction"; });
+            } else {
+                const double dt = e.t - tc[i], tol = sc.tolOf(i);
+                J.check(dt >= -EPS_T, "triggered-handler-before-crossing", [&] { return "handler " + std::to_string(i) + " invoked at " + verif::fmtd(e.t) + ", its witness crosses at " + verif::fmtd(tc[i]); });
+                J.residualKeyed(false, "handler-delay-over-own-window", dt / tol, 1 + 1e-9 + EPS_T / tol, "triggered-handler-later-than-its-own-window",
+                                [&] { return "handler " + std::to_string(i) + " invoked at " + verif::fmtd(e.t) + ", " + verif::fmtd(dt) + " after its crossing at " + verif::fmtd(tc[i]) + "; its required localisation window is " + verif::fmtd(tol); });
+                handled[i] = 1;
+            }
+            if (!stale) stateOnSegment(e, false);
+            if (!actedW[i]) { actedW[i] = 1; act(sc.wits[i].action, e.t); }
+            return;
+        }
+        // scheduled handler / reporter
+        const size_t k = (size_t)e.idx;
+        if (nextE[k] < expect[k].size() && expect[k][nextE[k]] == e.t) { nextE[k]++; J.check(true, "scheduled-item-at-its-time", [] { return std::string(); }); }
+        else if (e.kind == 'R' && wasExcused(e.t)) { /* late delivery of an excused report */ }
+        else J.check(false, e.kind == 'S' ? "scheduled-handler-not-at-its-time" : "scheduled-report-not-at-its-time",
+                     [&] { return "scheduled item " + std::to_string(k) + " ran at " + verif::fmtd(e.t) + "; next due time is " + (nextE[k] < expect[k].size() ? verif::fmtd(expect[k][nextE[k]]) : std::string("none")); });
+        if (!stale) stateOnSegment(e, false);
+        if (e.kind == 'S' && !actedS[k]) { actedS[k] = 1; act(sc.sched[k].action, e.t); }
+    }
+    void finish() { missesBefore(tEnd, 0, -1); listMissesBefore(tEnd); }
+};
+
+// ---------------------------------------------------------------- one simulation of a second-generation scenario
+static void judgeTrace(const Scn& sc, Judge& J, const std::vector<Entry>& trace, double tEnd, uint64_t& outcome) {
+    J.note("  trace: %s\n", traceStr(trace).c_str());
+    Tracker T(sc, J, tEnd);
+    for (auto& e : trace) { T.feed(e); outcome = verif::hashPod(e.idx, verif::hashPod(e.kind, outcome)); }
+    T.finish();
+}
+static void driveTimeStepper(const Scn& sc, Fixture2& fx, TimeStepper& ts, Integrator& integ, Judge& J, uint64_t& outcome) {
+    odesys::OdeSystem& sys = *fx.sys;
+    std::vector<double> targets = sc.driver == 1 ? sc.reports : std::vector<double>();
+    if (sc.tFinal < Infinity) targets.push_back(sc.tFinal);
+    double tPrevReturn = -Infinity;
+    auto one = [&](double r) {
+        Status st = ts.stepTo(r);
+        J.note("  TimeStepper::stepTo(%.12g) -> %s at t=%.12g\n", r, Integrator::getSuccessfulStepStatusString(st).c_str(), ts.getTime());
+        outcome = verif::hashPod((int)st, outcome);
+        J.check(ts.getTime() >= tPrevReturn, "returned-time-decreased", [&] { return "stepTo(" + verif::fmtd(r) + ") returned at t=" + verif::fmtd(ts.getTime()) + " after a return at " + verif::fmtd(tPrevReturn); });
+        tPrevReturn = ts.getTime();
+        if (st == Integrator::ReachedReportTime) {
+            J.check(ts.getTime() == r, "timestepper-report-not-at-requested-time", [&] { return "stepTo(" + verif::fmtd(r) + ") returned ReachedReportTime at " + verif::fmtd(ts.getTime()); });
+            fx.sh.trace.push_back(entryOf(sys, 'P', 0, ts.getState(), (int)st));
+        } else if (st != Integrator::EndOfSimulation)
+            J.check(false, "timestepper-unexpected-status", [&] { return std::string("TimeStepper::stepTo returned ") + Integrator::getSuccessfulStepStatusString(st).c_str(); });
+    };
+    for (double r : targets) { if (integ.isSimulationOver()) break; one(r); }
+    if (sc.tFinal < Infinity && !integ.isSimulationOver()) one(Infinity);
+}
+static void simulate2(verif::Run& run, const Scn& sc, Judge& J, uint64_t& outcome) {
+    Fixture2 fx(sc);
+    std::unique_ptr<Integrator> integ(fx.makeIntegrator());
+    odesys::OdeSystem& sys = *fx.sys;
+    const int nW = (int)sc.wits.size();
+
+    std::map<int, int> idToWit;
+    {
+        State scratch = fx.init; sys.realize(scratch, Stage::Acceleration);
+        for (int id = 0; id < nW + (int)sc.sched.size() + 3; ++id) {
+            fx.sh.probe = id; fx.sh.probed.clear();
+            Array_<EventId> ids; ids.push_back(EventId(id));
+            HandleEventsOptions opts; HandleEventsResults res;
+            sys.handleEvents(scratch, Event::Cause::Triggered, ids, opts, res);
+            if (fx.sh.probed.size() == 1) idToWit[id] = fx.sh.probed[0];
+        }
+        fx.sh.probe = -1;
+    }
+    J.check((int)idToWit.size() == nW, "event-id-dispatch", [&] { return std::string("System::handleEvents did not dispatch each triggered event id to exactly one handler"); });
+
+    fx.sh.integ = integ.get(); fx.sh.integIsCPodes = sc.integ >= 8;
+    if (sc.driver >= 1) {
+        TimeStepper ts(sys, *integ);
+        ts.initialize(fx.init);
+        driveTimeStepper(sc, fx, ts, *integ, J, outcome);
+    } else {
+        std::vector<double> grid = sc.reports; grid.push_back(sc.tFinal);
+        integ->initialize(fx.init);
+        HandleEventsOptions hopts(integ->getConstraintToleranceInUse());
+        double lastEventTime = -Infinity, lastHigh = -Infinity, tPrevReturn = -Infinity; size_t gi = 0; int guard = 0;
+        double lastW0 = NaN, lastW1 = NaN, lastKnownR = NaN;
+        while (!integ->isSimulationOver() && guard++ < 2000) {
+            Real tSched = Infinity; Array_<EventId> schedIds;
+            sys.realize(integ->getState(), Stage::Time);
+            sys.calcTimeOfNextScheduledEvent(integ->getState(), tSched, schedIds, lastEventTime != integ->getTime());
+            // the protocol's precondition (stepTo: reportTime >= current time) can only be broken by the integrator itself:
+            // it handed out an event whose window reaches beyond a report time it knew about.  (A report time it did not know
+            // when it localised the window may lie inside it -- see Tracker::excused -- and is then skipped, as TimeStepper's
+            // scheduled reports are.)
+            while (gi < grid.size() && grid[gi] < integ->getTime()) {
+                const double r = grid[gi++];
+                if (lastW0 < r && r < lastW1 && r != lastKnownR) { Judge::okCount()["(unspecified) a report time first requested after the event window was localised is overtaken by the handled event: skipped"]++; continue; }
+                J.check(false, "pending-report-overtaken-by-handled-event", [&] { return "the report due at " + verif::fmtd(r) + " was never returned but the integrator is already at t=" + verif::fmtd(integ->getTime()); });
+            }
+            const double r = gi < grid.size() ? grid[gi] : (double)Infinity;
+            const double taBefore = integ->getAdvancedTime();
+            Status st = integ->stepTo(r, tSched);
+            const double t = integ->getTime(), ta = integ->getAdvancedTime();
+            outcome = verif::hashPod((int)st, outcome);
+            J.note("  stepTo(%.12g, %.12g) -> %s t=%.15g tAdv=%.15g\n", r, (double)tSched, Integrator::getSuccessfulStepStatusString(st).c_str(), t, ta);
+            J.check(t >= tPrevReturn, "returned-time-decreased", [&] { return "stepTo returned at t=" + verif::fmtd(t) + " after a return at " + verif::fmtd(tPrevReturn); });
+            tPrevReturn = t;
+            Stage lowest = Stage::Report; bool term = false;
+            switch (st) {
+                case Integrator::ReachedReportTime:
+                    if (t >= r) { fx.sh.trace.push_back(entryOf(sys, 'P', 0, integ->getState(), (int)st)); gi++; }
+                    continue;
+                case Integrator::StartOfContinuousInterval:
+                    fx.sh.trace.push_back(entryOf(sys, 'P', 0, integ->getState(), (int)st));
+                    continue;
+                case Integrator::ReachedStepLimit: case Integrator::TimeHasAdvanced:
+                    continue;
+                case Integrator::ReachedScheduledEvent: {
+                    HandleEventsResults res;
+                    sys.handleEvents(integ->updAdvancedState(), Event::Cause::Scheduled, schedIds, hopts, res);
+                    lowest = res.getLowestModifiedStage(); term = res.getExitStatus() == HandleEventsResults::ShouldTerminate;
+                    lastEventTime = integ->getTime();
+                    break;
+                }
+                case Integrator::ReachedEventTrigger: {
+                    const Vec2 w = integ->getEventWindow();
+                    const Array_<EventId> ids = integ->getTriggeredEvents();
+                    const Array_<Event::Trigger> trans = integ->getEventTransitionsSeen();
+                    const Array_<Real> est = integ->getEstimatedEventTimes();
+                    J.note("      window (%.15g, %.15g] width %.3g, %d event(s)\n", w[0], w[1], w[1] - w[0], (int)ids.size());
+                    J.check(w[0] < w[1], "event-window-empty", [&] { return std::string("tLow >= tHigh"); });
+                    J.check(t == w[0] && ta == w[1], "event-return-not-at-window", [&] { return "state time " + verif::fmtd(t) + " / advanced " + verif::fmtd(ta) + " are not the window ends"; });
+                    J.check(w[0] >= lastHigh, "events-out-of-time-order", [&] { return "window starts at " + verif::fmtd(w[0]) + " before the previous window's end " + verif::fmtd(lastHigh); });
+                    lastHigh = w[1]; lastW0 = w[0]; lastW1 = w[1]; lastKnownR = ta != taBefore ? r : (double)NaN;
+                    // Integrator.h: "no report time, scheduled time, or final time t can occur *within* an event window".  Demanded of
+                    // the times the integrator was given in the call that localised the window (C19 does the same); a report time
+                    // first requested after the window was localised is counted as unspecified.
+                    if (ta != taBefore) {
+                        J.check(!(w[0] < r && r < w[1]), "report-time-inside-event-window", [&] { return "the pending report time " + verif::fmtd(r) + " lies strictly inside the event window (" + verif::fmtd(w[0]) + ", " + verif::fmtd(w[1]) + "]"; });
+                        J.check(!(w[0] < tSched && tSched < w[1]), "scheduled-time-inside-event-window", [&] { return "the pending scheduled time " + verif::fmtd(tSched) + " lies strictly inside the event window"; });
+                        J.check(!(w[0] < sc.tFinal && sc.tFinal < w[1]), "final-time-inside-event-window", [&] { return std::string("the final time lies strictly inside the event window"); });
+                    } else if (w[0] < r && r < w[1]) Judge::okCount()["(unspecified) a later request's report time lies strictly inside an already localised event window"]++;
+                    J.check(ids.size() == trans.size() && ids.size() == est.size() && ids.size() >= 1, "event-arrays-inconsistent", [&] { return std::string("triggered ids / transitions / estimated times differ in length or are empty"); });
+                    if (!J.tracing) {      // vacuity guards
+                        if (r == w[0] || r == w[1]) Judge::okCount()["(branch) a pending report time is an end of the event window"]++;
+                        if (tSched == w[1]) Judge::okCount()["(branch) a pending scheduled time is the upper end of the event window"]++;
+                        double wmin = Infinity, wmax = 0;
+                        for (int k = 0; k < (int)ids.size(); ++k) { auto it = idToWit.find((int)ids[k]); if (it != idToWit.end()) { wmin = std::min(wmin, sc.wits[it->second].win); wmax = std::max(wmax, sc.wits[it->second].win); } }
+                        if (ids.size() > 1) Judge::okCount()[wmin != wmax ? "(branch) one event window lists events with different required windows" : "(branch) one event window lists several events with equal required windows"]++;
+                    }
+                    // the before-state belongs to the trajectory
+                    fx.sh.trace.push_back(entryOf(sys, 'P', 0, integ->getState(), (int)st));
+                    const double qLow = sys.q(integ->getState(), 0), qHigh = sys.q(integ->getAdvancedState(), 0);
+                    for (int k = 0; k < (int)ids.size() && k < (int)trans.size(); ++k) {
+                        auto it = idToWit.find((int)ids[k]);
+                        if (it == idToWit.end()) { J.check(false, "unknown-event-id-listed", [&] { return "event id " + std::to_string((int)ids[k]) + " does not belong to a triggered handler"; }); continue; }
+                        const Wit2& wt = sc.wits[it->second];
+                        const double eLow = wit2Value(wt, qLow), eHigh = wit2Value(wt, qHigh);
+                        const double EE = 1e-12;
+                        const bool rising = eLow <= EE && eHigh >= -EE && eHigh > eLow, falling = eLow >= -EE && eHigh <= EE && eHigh < eLow;
+                        J.note("      listed: handler %d (own window %.3g) transition %s  e(tLow)=%.3g e(tHigh)=%.3g est=%.15g\n", it->second, sc.tolOf(it->second), Event::eventTriggerString(trans[k]).c_str(), eLow, eHigh, (double)est[k]);
+                        // every listed event must be localised within ITS OWN required window: accuracy * timescale * window
+                        J.residualKeyed(false, "event-window-width-over-listed-event-requirement", (w[1] - w[0]) / sc.tolOf(it->second), 1 + 1e-9, "event-window-wider-than-listed-event-allows",
+                                        [&] { return "handler " + std::to_string(it->second) + " requires localisation within " + verif::fmtd(sc.tolOf(it->second)) + " but is listed in the window (" + verif::fmtd(w[0]) + ", " + verif::fmtd(w[1]) + "] of width " + verif::fmtd(w[1] - w[0]); });
+                        J.check(rising || falling, "listed-event-did-not-cross", [&] { return "handler " + std::to_string(it->second) + " is listed but its witness goes " + verif::fmtd(eLow) + " -> " + verif::fmtd(eHigh) + " across the window: no sign change"; });
+                        J.check(!(rising || falling) || (rising && (wt.mask & 1)) || (falling && (wt.mask & 2)), "listed-event-in-unmonitored-direction", [&] { return "handler " + std::to_string(it->second) + " is listed for a transition in a direction it does not monitor"; });
+                        J.check((rising && trans[k] == Event::Rising) || (falling && trans[k] == Event::Falling) || (!rising && !falling), "transition-direction-wrong", [&] { return "handler " + std::to_string(it->second) + " transition reported as " + Event::eventTriggerString(trans[k]); });
+                        if (k < (int)est.size()) J.check(w[0] <= est[k] && est[k] <= w[1], "estimated-event-time-outside-window", [&] { return "estimated time " + verif::fmtd(est[k]) + " outside the window"; });
+                    }
+                    HandleEventsResults res;
+                    sys.handleEvents(integ->updAdvancedState(), Event::Cause::Triggered, ids, hopts, res);
+                    lowest = res.getLowestModifiedStage(); term = res.getExitStatus() == HandleEventsResults::ShouldTerminate;
+                    break;
+                }
+                case Integrator::EndOfSimulation: {
+                    HandleEventsResults res;
+                    sys.handleEvents(integ->updAdvancedState(), Event::Cause::Termination, Array_<EventId>(), hopts, res);
+                    lowest = res.getLowestModifiedStage(); term = res.getExitStatus() == HandleEventsResults::ShouldTerminate;
+                    break;
+                }
+                default:
+                    J.check(false, "invalid-status", [&] { return std::string("stepTo returned an invalid status"); });
+                    guard = 1 << 30;
+            }
+            if (!J.tracing && (st == Integrator::ReachedScheduledEvent || st == Integrator::ReachedEventTrigger))
+                Judge::okCount()[lowest == Stage::Dynamics ? "(branch) handlers' lowest modified stage: Dynamics" : lowest == Stage::Acceleration ? "(branch) handlers' lowest modified stage: Acceleration"
+                                 : lowest == Stage::Velocity ? "(branch) handlers' lowest modified stage: Velocity" : lowest >= Stage::Report ? "(branch) handlers modified nothing" : "(branch) handlers' lowest modified stage: other"]++;
+            integ->reinitialize(lowest, term);
+        }
+        J.check(integ->isSimulationOver(), "simulation-did-not-end", [&] { return std::string("the raw loop did not reach the end of the simulation within 2000 returns"); });
+    }
+    judgeTrace(sc, J, fx.sh.trace, sc.tFinal, outcome);
+    if (integ->isSimulationOver()) {
+        J.check(integ->getTerminationReason() == Integrator::ReachedFinalTime, "termination-reason-wrong", [&] { return std::string("termination reason is ") + Integrator::getTerminationReasonString(integ->getTerminationReason()).c_str(); });
+        J.check(integ->getAdvancedTime() == sc.tFinal, "simulation-ended-at-wrong-time", [&] { return "simulation ended at " + verif::fmtd(integ->getAdvancedTime()); });
+    }
+}
+
+// ---------------------------------------------------------------- section reuse: a second run on used objects vs fresh objects
+struct ReuseCfg { int variant, t1, t2, mode, final2; };
+static const char* REUSE_VARIANTS[] = {"run 1 = one stepTo(T1)", "run 1 ends by final time T1", "run 1 terminated by the triggered handler", "run 1 = stepTo(T1/2), stepTo(T1)"};
+static const char* REUSE_T2[] = {"0", "time of run 1's last scheduled event", "time of run 1's last scheduled report", "run 1's end time", "the periodic handler's next due time after run 1's last one", "run 1's last scheduled event time + 0.07", "3 periods"};
+static const char* REUSE_MODES[] = {"same TimeStepper and Integrator", "new TimeStepper on the used Integrator", "used TimeStepper with a new Integrator (setIntegrator)"};
+static const double RUN2_LEN = 0.55;
+static bool sameEntry(const Entry& a, const Entry& b) { return a.kind == b.kind && a.idx == b.idx && a.status == b.status && memcmp(&a.t, &b.t, 4 * sizeof(double)) == 0; }
+static void simulateReuse(verif::Run& run, const Scn& sc1, const ReuseCfg& rc, Judge& J, uint64_t& outcome) {
+    // ---- run 1 on the objects that will be used again
+    Fixture2 fx(sc1);
+    std::unique_ptr<Integrator> integ(makeIntegratorOf(sc1.integ, sc1.fixedStep != 0, sc1.hfix, *fx.sys)), integ2;
+    odesys::OdeSystem& sys = *fx.sys;
+    integ->setAccuracy(ACCURACY);
+    const double T1 = sc1.tFinal;
+    std::unique_ptr<TimeStepper> ts(new TimeStepper(sys, *integ)), tsNew;
+    if (rc.variant == 1) integ->setFinalTime(T1);
+    fx.sh.terminateOnTrigger = rc.variant == 2;
+    ts->initialize(fx.init);
+    if (rc.variant == 3) ts->stepTo(T1 / 2);
+    Status st1 = ts->stepTo(T1);
+    if (rc.variant == 1 && !integ->isSimulationOver()) st1 = ts->stepTo(Infinity);
+    const bool over1 = integ->isSimulationOver();
+    double lastE = 0, lastR = 0;
+    for (auto& e : fx.sh.trace) { if (e.kind == 'S') lastE = e.t; if (e.kind == 'R') lastR = e.t; }
+    const double tEnd1 = ts->getTime(), period = sc1.sched[0].when;
+    J.note("  run 1 (%s): last status %s, ended at t=%.12g, trace %s\n", REUSE_VARIANTS[rc.variant], Integrator::getSuccessfulStepStatusString(st1).c_str(), tEnd1, traceStr(fx.sh.trace).c_str());
+    double t2 = 0;
+    switch (rc.t2) {
+        case 0: t2 = 0; break;
+        case 1: t2 = lastE; break;
+        case 2: t2 = lastR; break;
+        case 3: t2 = tEnd1; break;
+        case 4: t2 = (std::floor(lastE / period + 0.5) + 1) * period; break;
+        case 5: t2 = lastE + 0.07; break;
+        default: t2 = 3 * period; break;
+    }
+    // ---- run 2
+    Scn sc2 = sc1;
+    sc2.t0 = t2; sc2.q0 = 0.05; sc2.z0 = 0.3; sc2.driver = 1;
+    sc2.tFinal = rc.final2 ? t2 + RUN2_LEN : (double)Infinity;
+    sc2.reports = {t2 + 0.11, t2 + 0.31, t2 + 0.5};
+    const double tEnd2 = rc.final2 ? sc2.tFinal : sc2.reports.back();
+    auto run2 = [&](Fixture2& f, TimeStepper& stepper, Integrator& I, const Scn& scn, std::vector<Entry>& out) {
+        f.sh.reset(scn.wits.size() + scn.sched.size()); f.sh.terminateOnTrigger = false;
+        f.sh.integ = &I; f.sh.integIsCPodes = scn.integ >= 8;
+        I.setFinalTime(rc.final2 ? scn.tFinal : -1.0);
+        State s2 = f.sys->makeState(scn.t0, Vector(1, Real(scn.q0)), Vector(1, Real(scn.u0)), Vector(1, Real(scn.z0)));
+        stepper.initialize(s2);
+        driveTimeStepper(scn, f, stepper, I, J, outcome);
+        out = f.sh.trace;
+    };
+    std::vector<Entry> used, fresh;
+    J.note("  run 2 starts at t=%.17g (%s), %s, %s\n  -- on the used objects:\n", t2, REUSE_T2[rc.t2], REUSE_MODES[rc.mode], rc.final2 ? "final time set" : "no final time");
+    // the used system keeps its handlers (they read the scenario parameters of sc1, which run 2 shares: same root in q, same intervals and actions)
+    if (rc.mode == 1) { tsNew.reset(new TimeStepper(sys, *integ)); run2(fx, *tsNew, *integ, sc2, used); }
+    else if (rc.mode == 2) {
+        integ2.reset(makeIntegratorOf(sc1.integ, sc1.fixedStep != 0, sc1.hfix, sys)); integ2->setAccuracy(ACCURACY);
+        ts->setIntegrator(*integ2); run2(fx, *ts, *integ2, sc2, used);
+    } else run2(fx, *ts, *integ, sc2, used);
+    J.note("  -- on freshly constructed System, Integrator and TimeStepper:\n");
+    {
+        Fixture2 fy(sc2);
+        std::unique_ptr<Integrator> I(makeIntegratorOf(sc2.integ, sc2.fixedStep != 0, sc2.hfix, *fy.sys)); I->setAccuracy(ACCURACY);
+        TimeStepper stepper(*fy.sys, *I);
+        run2(fy, stepper, *I, sc2, fresh);
+    }
+    J.note("  used objects trace:  %s\n  fresh objects trace: %s\n", traceStr(used).c_str(), traceStr(fresh).c_str());
+    if (!J.tracing) {      // vacuity guards
+        if (t2 == lastE) Judge::okCount()["(branch) run 2 starts at the time of run 1's last scheduled event"]++;
+        if (t2 == lastR) Judge::okCount()["(branch) run 2 starts at the time of run 1's last scheduled report"]++;
+        bool sAt = false, rAt = false;
+        for (auto& e : fresh) { if (e.kind == 'S' && e.t == t2) sAt = true; if (e.kind == 'R' && e.t == t2) rAt = true; }
+        if (sAt && t2 == lastE) Judge::okCount()["(branch) a scheduled handler is due exactly at run 2's initial time = run 1's last scheduled event time"]++;
+        if (rAt && t2 == lastR) Judge::okCount()["(branch) a scheduled report is due exactly at run 2's initial time = run 1's last scheduled report time"]++;
+        if (over1) Judge::okCount()["(branch) run 1 ended the simulation (final time or termination) before the objects were used again"]++;
+    }
+    // differential oracle: the second run behaves exactly like the same run on fresh objects (bitwise)
+    size_t n = std::min(used.size(), fresh.size()), i = 0;
+    while (i < n && sameEntry(used[i], fresh[i])) ++i;
+    if (i == n && used.size() == fresh.size()) J.check(true, "reuse/second-run-equals-fresh-run", [] { return std::string(); });
+    else {
+        const char* clause;
+        const bool freshHas = i < fresh.size(), usedHas = i < used.size();
+        const Entry* f = freshHas ? &fresh[i] : nullptr; const Entry* u = usedHas ? &used[i] : nullptr;
+        if (f && (f->kind == 'S' || f->kind == 'R') && f->t == t2 && !(u && u->kind == f->kind && u->idx == f->idx && u->t == f->t))
+            clause = f->kind == 'S' ? "reuse/scheduled-handler-due-at-new-initial-time-not-invoked" : "reuse/scheduled-report-due-at-new-initial-time-not-made";
+        else if (f && u && f->kind == u->kind && f->idx == u->idx && f->t == u->t) clause = "reuse/second-run-state-differs-from-fresh-run";
+        else if (f && u && f->kind == u->kind && f->idx == u->idx) clause = "reuse/second-run-time-differs-from-fresh-run";
+        else clause = "reuse/second-run-sequence-differs-from-fresh-run";
+        J.check(false, clause, [&] { return "entry " + std::to_string(i) + " of the second run's trace differs: used objects [" + traceStr(used) + "] fresh objects [" + traceStr(fresh) + "]"; });
+    }
+    // absolute oracle on the fresh run (and therefore, through the differential one, on the used run)
+    judgeTrace(sc2, J, fresh, tEnd2, outcome);
+    for (auto& e : used) outcome = verif::hashPod(e.idx, verif::hashPod(e.kind, outcome));
+    (void)run;
+}
+
+// ---------------------------------------------------------------- parameters of one case (replayable as text)
+struct P2 {
+    std::string sec; int vs = 0, integ = 0, fixed = 0, driver = 0; int a[8] = {0, 0, 0, 0, 0, 0, 0, 0};
+    std::string str() const {
+        std::string s = "sec=" + sec + " vs=" + std::to_string(vs) + " integ=" + INTEG_NAMES[integ] + " fixed=" + std::to_string(fixed) + " driver=" + std::to_string(driver) + " a=";
+        for (int i = 0; i < 8; ++i) s += std::to_string(a[i]) + (i < 7 ? "," : "");
+        return s;
+    }
+};
+static P2 parseP2(const std::string& text) {
+    P2 p; std::istringstream is(text); std::string tok;
+    while (is >> tok) {
+        size_t e = tok.find('='); if (e == std::string::npos) continue;
+        std::string k = tok.substr(0, e), v = tok.substr(e + 1); int n = atoi(v.c_str());
+        if (k == "sec") p.sec = v; else if (k == "vs") p.vs = n; else if (k == "fixed") p.fixed = n; else if (k == "driver") p.driver = n;
+        else if (k == "integ") { for (int i = 0; i < 10; ++i) if (v == INTEG_NAMES[i]) p.integ = i; }
+        else if (k == "a") { std::replace(v.begin(), v.end(), ',', ' '); std::istringstream as(v); for (int i = 0; i < 8 && (as >> p.a[i]); ++i) {} }
+    }
+    return p;
+}
+
+static const double WIN3[3] = {0.001, 0.1, 10};                  // section win: tolerances 1e-7, 1e-5 (the default), 1e-3
+static const double WINWIDE[4] = {50, 500, 5, 150};              // section repwin: tolerances 5e-3, 5e-2 (quick) and 5e-4, 1.5e-2 (thorough)
+static const int NDELTA = 15;
+static double deltaOf(int k, double f, double c) {               // offsets of the second root: fractions of the finer (f) and the coarser (c) tolerance
+    static const double fr[7] = {0.5, 2, 0.25, 0.6, 0.95, 1.5, 4};
+    if (k == 0) return 0;
+    const int m = (k - 1) / 2; const double d = fr[m] * (m < 2 ? f : c);
+    return (k - 1) % 2 ? -d : d;
+}
+static const double OFF12[12] = {-1.5, -1, -0.5, -0.25, -0.05, 0, 0.05, 0.25, 0.5, 0.75, 1, 1.5};   // report offsets in units of the event's tolerance
+static const int PAIRSET[6] = {2, 4, 6, 7, 8, 10};
+static const int NREPCFG = 12 + 15;
+
+static Scn buildScn(const P2& p) {
+    const Values& v = VALUES[p.vs];
+    Scn sc; sc.sec = p.sec; sc.vs = p.vs; sc.integ = p.integ; sc.fixedStep = p.fixed; sc.driver = p.driver; sc.hfix = v.hfix; sc.uNew = v.uNew;
+    if (p.sec == "win") {
+        // a0,a1: window of A,B; a2,a3: shape; a4: orientations; a5: offset of B's root; a6: third witness (0 none, 1..6 = window x side)
+        const double wA = WIN3[p.a[0]], wB = WIN3[p.a[1]];
+        const double tolA = ACCURACY * TIMESCALE * wA, tolB = ACCURACY * TIMESCALE * wB;
+        const double d = deltaOf(p.a[5], std::min(tolA, tolB), std::max(tolA, tolB));
+        sc.wits.push_back({p.a[2], (p.a[4] & 1) ? -1 : +1, v.one, wA, 3, A2None});
+        sc.wits.push_back({p.a[3], (p.a[4] & 2) ? -1 : +1, v.one + d, wB, 3, A2None});
+        if (p.a[6] > 0) {
+            const double wC = WIN3[(p.a[6] - 1) % 3], coarsest = ACCURACY * TIMESCALE * std::max(wC, std::max(wA, wB));
+            sc.wits.push_back({ShLinear, +1, v.one + ((p.a[6] - 1) / 3 ? -0.4 : 0.4) * coarsest, wC, 3, A2None});
+        }
+    } else if (p.sec == "stage") {
+        // a0: witness shape (linear/convex); a1: action of the triggered handler; a2: action of the scheduled handler; a3: report grid; a4: scheduled once / periodic
+        sc.wits.push_back({p.a[0] ? ShConvex : ShLinear, +1, v.three[0], 0.1, 3, p.a[1]});
+        sc.sched.push_back({'S', p.a[4] != 0, p.a[4] ? v.period : v.three[1] + 0.07, p.a[2]});
+        if (p.a[3] == 1) for (int k = 1; k * 0.05 < TFINAL - 1e-9; ++k) sc.reports.push_back(k * 0.05);
+        if (p.a[3] == 0) sc.reports.push_back(0.9);
+    } else if (p.sec == "repwin") {
+        // a0: wide window; a1: shape; a2: orientation; a3: action; a4: report configuration (12 single offsets, 15 pairs);
+        // a5: where the internal step that contains the crossing ends: 0 wherever the integrator puts it, 1..3 a passive
+        // scheduled handler 0.3 / 0.8 / 1.6 tolerances after the crossing forces every integrator to end the step there
+        // (the crossing is then closer to the step end than the window is wide, so the first bisection can finish the search)
+        static const double ENDS[4] = {0, 0.3, 0.8, 1.6};
+        const double w = WINWIDE[p.a[0]], tol = ACCURACY * TIMESCALE * w;
+        sc.wits.push_back({p.a[1], p.a[2] ? -1 : +1, v.one, w, 3, p.a[3] ? A2SetU : A2None});
+        if (p.a[5]) sc.sched.push_back({'S', false, v.one + ENDS[p.a[5]] * tol, A2None});
+        if (p.a[4] < 12) sc.reports.push_back(v.one + OFF12[p.a[4]] * tol);
+        else {
+            int k = p.a[4] - 12, i = 0, j = 1;
+            while (k >= 5 - i) { k -= 5 - i; ++i; j = i + 1; }
+            j += k;
+            sc.reports.push_back(v.one + OFF12[PAIRSET[i]] * tol); sc.reports.push_back(v.one + OFF12[PAIRSET[j]] * tol);
+        }
+    } else if (p.sec == "reuse") {
+        // a0: run-1 variant; a1: T1; a2: start of run 2; a3: which objects are used again; a4: final time in run 2; a5: action of the periodic handler
+        static const double T1F[4] = {0.6, 2.0, 2.3, 3.6};
+        sc.sched.push_back({'S', true, v.period, p.a[5] ? A2SetU : A2None});
+        sc.sched.push_back({'R', true, 0.75 * v.period, A2None});
+        sc.sched.push_back({'S', false, v.sched, A2None});
+        sc.sched.push_back({'R', false, v.sched + 0.05, A2None});
+        sc.wits.push_back({ShLinear, +1, 0.22, 0.1, 3, A2None});
+        sc.tFinal = T1F[p.a[1]] * v.period;          // run 1's end (a final time only in variant 1)
+        sc.driver = 1;
+    }
+    return sc;
+}
+static std::string describeP2(const P2& p, const Scn& sc) {
+    if (p.sec != "reuse") return sc.describe();
+    return "section reuse: " + std::string(REUSE_VARIANTS[p.a[0]]) + " with T1=" + verif::fmtd(sc.tFinal) + "; run 2 starts at " + REUSE_T2[p.a[2]] + " on " + REUSE_MODES[p.a[3]] + (p.a[4] ? ", final time set" : ", no final time") +
+           "; system: " + sc.describe();
+}
+
+}  // namespace g2
+
 // ---------------------------------------------------------------- two-pass execution
 static void quietWorker(verif::Run& run) {
     static bool done = false;
@@ -576,22 +1294,73 @@ static void runCase(verif::Run& run, const Cfg& cfg) {
     alarm(0);
 }
 
+static void runCase2(verif::Run& run, const g2::P2& p) {
+    alarm(300);
+    const g2::Scn sc = g2::buildScn(p);
+    const std::string cs = p.str(), cd = g2::describeP2(p, sc);
+    bool loops = false;
+    for (int pass = 0; pass < 2; ++pass) {
+        Judge J(run, cs, cd, INTEG_NAMES[p.integ], "cfg2", pass == 1 || run.verbose);
+        if (pass == 1 && loops) J.reported = J.reportedB = true;
+        uint64_t outcome = verif::hashStr(p.sec + INTEG_NAMES[p.integ]);
+        bool threw = false; std::string what;
+        odesys::workBudget() = WORK_BUDGET;
+        try {
+            if (p.sec == "reuse") { g2::ReuseCfg rc = {p.a[0], p.a[1], p.a[2], p.a[3], p.a[4]}; g2::simulateReuse(run, sc, rc, J, outcome); }
+            else g2::simulate2(run, sc, J, outcome);
+        } catch (const std::exception& e) { threw = true; what = e.what(); }
+        const bool exhausted = odesys::workBudget() == 0;
+        odesys::workBudget() = -1;
+        if (exhausted) {
+            loops = true;
+            if (!J.tracing) J.sawFailure = true;
+            else run.expect(false, std::string(INTEG_NAMES[p.integ]) + "/simulation-never-returns",
+                            [&] { return "simulation-never-returns: the simulation kept realizing the state without finishing (stopped after " + std::to_string(WORK_BUDGET) + " realizations)\n  at " + J.where(); }, [&] { return J.replay(); });
+        } else if (threw) J.check(false, "unexpected-exception", [&] { return "the simulation threw: " + what.substr(0, 400); });
+        if (pass == 0) { run.evaluation(verif::hashStr(cs), true); run.outcome(outcome); }
+        if (run.verbose) printf("%s\n  %s\n%s", cs.c_str(), cd.c_str(), J.trace.c_str());
+        if (!J.sawFailure) break;
+    }
+    alarm(0);
+}
+
 int main(int argc, char** argv) {
     verif::Run run("C22", argc, argv);
-    run.setDeadline(1200, 7200);   // safety net only: quick needs ~20-40 s on 16 idle cores (about 320 CPU-s), see notes
+    run.setDeadline(1200, 7200);   // safety net only: quick needs about 200 CPU-s (50 s wall on 4 workers), see notes
     const bool thorough = run.thorough();
     run.rule = "a case = (value set, integrator, crossing pattern, direction-mask combination, action of handler 0, fixed/controlled step, report grid, scheduled-handler variant, driver); "
                "every case is one complete simulation to the final time, judged at every ReachedEventTrigger (raw driver) and on its handler log and report states (both drivers) against an analytic reference; "
-               "distinct = distinct tuple; all non-trivial (each simulation has at least one witness and takes at least one step)";
+               "distinct = distinct tuple; all non-trivial (each simulation has at least one witness and takes at least one step).  "
+               "Four further sections, each a complete product as well (tuples listed in notes/C22.md): "
+               "win = (value set, integrator, step mode, driver, required localisation window of witness A and of B from {0.001, 0.1, 10}, shape of A and of B from {linear, convex, concave}, "
+               "orientations, offset of B's root from A's on a 15-point lattice in units of the finer and the coarser tolerance, optional third witness): every listed event must be localised within its OWN window; "
+               "stage = (.., witness shape, action of the triggered handler, action of the scheduled handler from {none, u, z only, Dynamics-stage variable, Acceleration-stage variable}, report grid, once/periodic): "
+               "the trajectory continues from the handlers' state; "
+               "repwin = (.., wide window from {50, 500} (thorough also 5, 150), shape, orientation, passive/state-modifying handler, 27 report configurations on a lattice of 12 offsets around the crossing (singles and pairs), "
+               "step end forced 0 / 0.3 / 0.8 / 1.6 tolerances after the crossing, driver from {raw, TimeStepper targets, TimeStepper scheduled reporter}): no report time inside an event window, everything the caller sees is in time order; "
+               "reuse = (.., how run 1 ended, its length, start time of run 2 from 7 choices incl. run 1's last scheduled event / report time, which objects are used again, final time in run 2, action): "
+               "the second run on used TimeStepper/Integrator objects equals bitwise the same run on fresh objects";
     run.assumptions = {"piecewise-linear trajectory (qdot=u, udot=0, zdot=d): crossing times are closed-form and every integrator is exact between handler actions",
                        "u > 0 throughout; crossings are transversal (the property excludes tangential contacts)",
                        "two sign changes of one witness inside a single step are not demanded (documented: a trigger that came and went during a step is lost)",
                        "order of handlers due at the same instant is compared as a set",
-                       "default accuracy 1e-3, default time scale 0.1 and default 10% localisation window: documented window = 1e-5"};
+                       "default accuracy 1e-3, default time scale 0.1 and default 10% localisation window: documented window = 1e-5",
+                       "sections win/stage/repwin/reuse: the documented window of an event is accuracy*timescale*its own required window (1e-4 * window); the reference follows the implementation's own handler "
+                       "invocation times (each judged against the analytic crossing / scheduled time first), so states are compared to roundoff (1e-10; CPodes 1e-9)",
+                       "Integrator.h's promise that no report time lies strictly inside an event window is demanded for the report time given to the stepTo call that localised the window (the earliest report time after the "
+                       "start of that internal step); a report time first requested later may lie inside an existing window and its delivery order is not judged (counted; same reading as C19)",
+                       "convex/concave witnesses are quadratics in q whose second root is out of reach (q stays in [0,2)), so each witness crosses once"};
 
     if (run.replaying() && !run.replayField("cfg").empty()) {
         Cfg cfg = parseCfg(run.replayField("cfg"));
         runCase(run, cfg);
+        int rc = run.finish();
+        if (run.acc.violCountByKey.empty()) printf("replay: no violation\n");
+        return rc;
+    }
+
+    if (run.replaying() && !run.replayField("cfg2").empty()) {
+        runCase2(run, g2::parseP2(run.replayField("cfg2")));
         int rc = run.finish();
         if (run.acc.violCountByKey.empty()) printf("replay: no violation\n");
         return rc;
@@ -615,5 +1384,46 @@ int main(int argc, char** argv) {
         if (i % 3001 == 0) run.sample(cases[i].str() + " :: " + cases[i].describe());
     });
     Judge::flush(run);
+
+    // ---------------- second-generation sections (see the comment at namespace g2)
+    std::map<std::string, std::vector<g2::P2>> cases2;
+    for (int vs : vss) for (int integ = 0; integ < nInteg; ++integ) for (int fixed = 0; fixed < 2; ++fixed) {
+        g2::P2 b; b.vs = vs; b.integ = integ; b.fixed = fixed;
+        // win: per-event localisation windows
+        for (int driver = 0; driver < 2; ++driver) for (int wA = 0; wA < 3; ++wA) for (int wB = 0; wB < 3; ++wB) for (int sA = 0; sA < 3; ++sA) for (int sB = 0; sB < 3; ++sB)
+            for (int o = 0; o < 4; ++o) for (int d = 0; d < g2::NDELTA; ++d) for (int third = 0; third < 7; ++third) {
+                // quick: the third witness only with both rising, three shape pairs and every third offset
+                if (third && !thorough && !(o == 0 && d % 3 == 0 && ((sA == 1 && sB == 0) || (sA == 0 && sB == 1) || (sA == 1 && sB == 2)))) continue;
+                if (third && thorough && !(o == 0 || o == 3)) continue;
+                g2::P2 p = b; p.sec = "win"; p.driver = driver; p.a[0] = wA; p.a[1] = wB; p.a[2] = sA; p.a[3] = sB; p.a[4] = o; p.a[5] = d; p.a[6] = third;
+                cases2["win"].push_back(p);
+            }
+        // stage: handlers whose lowest modified stage is Dynamics / Acceleration
+        for (int driver = 0; driver < 2; ++driver) for (int sh = 0; sh < 2; ++sh) for (int x = 0; x < g2::NACT2; ++x) for (int y = 0; y < g2::NACT2; ++y) for (int grid = 0; grid < 2; ++grid) for (int per = 0; per < 2; ++per) {
+            g2::P2 p = b; p.sec = "stage"; p.driver = driver; p.a[0] = sh; p.a[1] = x; p.a[2] = y; p.a[3] = grid; p.a[4] = per;
+            cases2["stage"].push_back(p);
+        }
+        // repwin: report times around a crossing that is localised with a wide window
+        for (int driver = 0; driver < 3; ++driver) for (int w = 0; w < (thorough ? 4 : 2); ++w) for (int sh = 0; sh < 3; ++sh) for (int o = 0; o < 2; ++o) for (int act = 0; act < 2; ++act) for (int rep = 0; rep < g2::NREPCFG; ++rep) for (int end = 0; end < 4; ++end) {
+            g2::P2 p = b; p.sec = "repwin"; p.driver = driver; p.a[0] = w; p.a[1] = sh; p.a[2] = o; p.a[3] = act; p.a[4] = rep; p.a[5] = end;
+            cases2["repwin"].push_back(p);
+        }
+        // reuse: a second run on used TimeStepper / Integrator objects
+        for (int var = 0; var < 4; ++var) for (int t1 = 0; t1 < 4; ++t1) for (int t2 = 0; t2 < 7; ++t2) for (int mode = 0; mode < 3; ++mode) for (int fin = 0; fin < 2; ++fin) for (int act = 0; act < 2; ++act) {
+            g2::P2 p = b; p.sec = "reuse"; p.driver = 1; p.a[0] = var; p.a[1] = t1; p.a[2] = t2; p.a[3] = mode; p.a[4] = fin; p.a[5] = act;
+            cases2["reuse"].push_back(p);
+        }
+    }
+    for (const char* sec : {"win", "stage", "repwin", "reuse"}) {
+        const std::vector<g2::P2>& L = cases2[sec];
+        run.extraCoverage[std::string("cases_") + sec] = std::to_string(L.size());
+        run.parallel(sec, (int64_t)L.size(), [&](int64_t i) {
+            quietWorker(run);
+            runCase2(run, L[i]);
+            Judge::flush(run);
+            if (i % 7001 == 0) run.sample(L[i].str() + " :: " + g2::describeP2(L[i], g2::buildScn(L[i])));
+        });
+        Judge::flush(run);
+    }
     return run.finish();
 }
